@@ -70,6 +70,21 @@ fn case(t0: &mut Tape, w: &Worker) -> CaseResult {
             ..Default::default()
         },
     );
+    // the header-size byte of one packet (not the first of the file) is wrong: framing is unaffected (payload size and
+    // offset come from their own fields), so the packet is filtered and copied like any other
+    let mut s = s;
+    if ot.chance(1, 5) && s.n_packets() >= 2 {
+        let first_link = s.order.first().copied().unwrap_or(0);
+        let li = ot.below(s.links.len());
+        let np = s.links[li].packets.len();
+        if np > 0 {
+            let pi = ot.below(np);
+            if !(li == first_link && pi == 0) {
+                s.links[li].packets[pi].rdh.header_size = *ot.pick(&[0x20u8, 0x50, 0x00, 0x41, 0xFF]);
+                labels.push("odd_header_size_byte".into());
+            }
+        }
+    }
     let (bytes, _lay) = s.encode();
     let (walked, end) = walk(&bytes);
     assert_eq!(end, WalkEnd::CleanEof);
@@ -128,7 +143,8 @@ fn case(t0: &mut Tape, w: &Worker) -> CaseResult {
             }
         }
         // idempotence: filtering the output again with the same filter reproduces it
-        if !out.is_empty() {
+        // (an output whose first packet has the odd header-size byte is refused as a new input by the documented pre-check)
+        if !out.is_empty() && out[1] == 0x40 {
             let od = Arc::new(out.clone());
             let (spec2, out2, _) = run_filter(w, &od, f, Dest::File, !stdin, &mut execs)?;
             if out2 != out {
